@@ -217,7 +217,7 @@ def components(obj):
     import osyris
 
     if isinstance(obj, osyris.Vector):
-        return [c for c in obj._xyz.values()]
+        return core.vcomps(obj)
     return [obj]
 
 
